@@ -44,7 +44,12 @@ pub enum Pipe {
   ThrottleLead,
   ThrottleTailTick,
   DebounceTick,
+  /// observe_on_threads / delay_threads / delay_subscription with the pool worker's tick as a thread operation
+  ObserveOnTick,
+  DelayTick,
 }
+
+pub const MOVE_PIPES: &[Pipe] = &[Pipe::ObserveOnTick, Pipe::DelayTick];
 
 pub const RATE_PIPES: &[Pipe] = &[Pipe::BufferTime, Pipe::BufferCountTime, Pipe::SampleTick, Pipe::ThrottleAll, Pipe::ThrottleLead, Pipe::ThrottleTailTick, Pipe::DebounceTick];
 
@@ -219,7 +224,7 @@ pub fn build(p: Pipe) -> Rig {
       keep!(cat::hot_tagged_t(0).debounce(world::units(1), world::any_sched()).actual_subscribe(probe));
       Rig { feed: feed_tags(vec![0]), ninputs: 1, unsub, subscribe: None, probes: vec![probe], drain: sched_drain, peek: None, extra: vec![] }
     }
-    Pipe::BufferTime | Pipe::BufferCountTime | Pipe::SampleTick | Pipe::ThrottleAll | Pipe::ThrottleLead | Pipe::ThrottleTailTick | Pipe::DebounceTick => {
+    Pipe::BufferTime | Pipe::BufferCountTime | Pipe::SampleTick | Pipe::ThrottleAll | Pipe::ThrottleLead | Pipe::ThrottleTailTick | Pipe::DebounceTick | Pipe::ObserveOnTick | Pipe::DelayTick => {
       let sd = world::any_sched();
       let src = cat::hot_tagged_t(0);
       match p {
@@ -227,6 +232,8 @@ pub fn build(p: Pipe) -> Rig {
         Pipe::BufferCountTime => keep!(src.buffer_with_count_and_time(2, world::units(1), sd).map(|v: Vec<Val>| Val::L(v)).actual_subscribe(probe)),
         Pipe::SampleTick => keep!(src.sample_threads(observable::interval(world::units(1), sd).map(|n: usize| Val::c(n as i64)).on_error_map(|_: std::convert::Infallible| Val::c(0))).actual_subscribe(probe)),
         Pipe::DebounceTick => keep!(src.debounce(world::units(1), sd).actual_subscribe(probe)),
+        Pipe::ObserveOnTick => keep!(src.observe_on_threads(sd).actual_subscribe(probe)),
+        Pipe::DelayTick => keep!(src.delay_threads(world::units(1), sd).actual_subscribe(probe)),
         Pipe::ThrottleLead => keep!(src.throttle(|_v: &Val| world::units(1), rxrust::ops::throttle::ThrottleEdge::leading(), sd).actual_subscribe(probe)),
         Pipe::ThrottleTailTick => keep!(src.throttle(|_v: &Val| world::units(1), rxrust::ops::throttle::ThrottleEdge::tailing(), sd).actual_subscribe(probe)),
         _ => keep!(src.throttle(|_v: &Val| world::units(1), rxrust::ops::throttle::ThrottleEdge::all(), sd).actual_subscribe(probe)),
@@ -444,8 +451,12 @@ enum TOp {
 }
 
 fn draw_op(rig: &Rig, allow_unsub: bool) -> TOp {
+  draw_op_x(rig, allow_unsub, true)
+}
+
+fn draw_op_x(rig: &Rig, allow_unsub: bool, allow_extra: bool) -> TOp {
   let extra = allow_unsub as u32 + rig.subscribe.is_some() as u32;
-  let c = e::choose(rig.ninputs as u32 * 3 + extra + rig.extra.len() as u32);
+  let c = e::choose(rig.ninputs as u32 * 3 + extra + if allow_extra { rig.extra.len() as u32 } else { 0 });
   if c >= rig.ninputs as u32 * 3 + extra {
     return TOp::Extra((c - rig.ninputs as u32 * 3 - extra) as usize);
   }
@@ -485,6 +496,8 @@ fn make_closure(rig: &Rig, op: TOp, late: Rc<RefCell<Vec<Probe>>>, key_after_uns
     TOp::Unsub => {
       let u = unsub.borrow_mut().take();
       if let Some(u) = u {
+        // when the teardown began (counter 95): deliveries concurrent with it may or may not happen
+        world::set_counter(95, world::tick() as i64);
         u();
         // from the moment unsubscribe() has returned, no callback may start
         first.forbid(key_after_unsub);
@@ -513,7 +526,10 @@ fn c10_preempt(pipes: &[Pipe], nops: usize, max_preempt: u32) {
   let mut script: Vec<Vec<TOp>> = vec![vec![], vec![]];
   for t in 0..2 {
     for _ in 0..nops {
-      let op = draw_op(&rig, t == 1);
+      // the pool has one worker: only T0 ticks the clock and polls (two threads ticking would make "advance, then
+      // poll" non-atomic in a way no serial order of whole ticks reproduces: a delayed poll is not a defect)
+      let one_worker = RATE_PIPES.contains(&p) || MOVE_PIPES.contains(&p);
+      let op = draw_op_x(&rig, t == 1, !(one_worker && t == 1));
       desc.push(format!("T{}:{}", t, show_op(&op)));
       script[t].push(op.clone());
       world::thread_push(t, make_closure(&rig, op, late.clone(), key));
@@ -567,6 +583,8 @@ fn c10_preempt(pipes: &[Pipe], nops: usize, max_preempt: u32) {
   // a lost hand-over shows up here.
   if !matches!(p, Pipe::FlatMapIter) && !script.iter().flatten().any(|o| matches!(o, TOp::Subscribe)) {
     let got: Vec<Vec<Ev>> = rig.probes.iter().map(|q| q.events()).collect();
+    let got_logs: Vec<Vec<world::Rec>> = rig.probes.iter().map(|q| q.log()).collect();
+    let unsub_tick = world::counter(95) as u64;
     drop(rig);
     let orders = interleavings(script[0].len(), script[1].len());
     let mut ok = false;
@@ -600,6 +618,59 @@ fn c10_preempt(pipes: &[Pipe], nops: usize, max_preempt: u32) {
       }
       if shown.len() < 3 {
         shown.push(want.iter().map(|l| model::show_events(l)).collect::<Vec<_>>().join(" / "));
+      }
+    }
+    // unsubscribe() is a multi-step teardown, not an atomic operation: a delivery that is concurrent with it may
+    // or may not happen. For a script with an unsubscribe the outcome may therefore also be: what was delivered
+    // before the teardown began is a prefix of some serial order of the *other* operations, and what was
+    // delivered after that moment is a subsequence of the rest of that order's outcome.
+    if !ok && unsub_tick > 0 {
+      let script2: Vec<Vec<TOp>> = script.iter().map(|l| l.iter().filter(|o| !matches!(o, TOp::Unsub)).cloned().collect()).collect();
+      'orders: for order in interleavings(script2[0].len(), script2[1].len()) {
+        world::reset_world();
+        let rig2 = build(p);
+        let late2: Rc<RefCell<Vec<Probe>>> = Rc::new(RefCell::new(vec![]));
+        let mut idx = [0usize; 2];
+        for t in order {
+          let op = script2[t][idx[t]].clone();
+          idx[t] += 1;
+          (make_closure(&rig2, op, late2.clone(), "unused"))();
+        }
+        (rig2.drain)();
+        let want: Vec<Vec<Ev>> = rig2.probes.iter().map(|q| q.events()).collect();
+        if want.len() != got_logs.len() {
+          continue;
+        }
+        for (log, w) in got_logs.iter().zip(want.iter()) {
+          let nb = log.iter().filter(|r| r.tick < unsub_tick).count();
+          if nb > w.len() {
+            continue 'orders;
+          }
+          let before: Vec<Ev> = log[..nb].iter().map(|r| r.ev.clone()).collect();
+          match model::compare_events(&before, &w[..nb]) {
+            Ok(t) if e::valid(t) => {}
+            _ => continue 'orders,
+          }
+          let mut pos = nb;
+          for r in &log[nb..] {
+            let mut found = false;
+            while pos < w.len() {
+              let m = model::compare_events(std::slice::from_ref(&r.ev), std::slice::from_ref(&w[pos]));
+              pos += 1;
+              if let Ok(t) = m {
+                if e::valid(t) {
+                  found = true;
+                  break;
+                }
+              }
+            }
+            if !found {
+              continue 'orders;
+            }
+          }
+        }
+        ok = true;
+        break;
       }
     }
     if !ok {
@@ -653,6 +724,7 @@ pub fn harnesses() -> Vec<HarnessDef> {
   add("c05_threads_iter", vec!["C05", "C16"], "flat_map_threads over a hot inner and a synchronous from_iter inner: another thread terminates the output while the iterator inner is emitting; it must stop pulling (no blocking on an unbounded iterator)", |_| "2 threads x 2 operations, <= 3 pre-emptions".to_string(), Box::new(|_| c10_preempt(&[Pipe::FlatMapIter], 2, 3)), 3_000_000, 40_000_000);
   add("c02_threads_sched", vec!["C02", "C19"], "a pool worker thread polling scheduled tasks (subscribe_on / delay_subscription over a synchronous source, observe_on_threads, delay_threads, interval) racing an unsubscribing thread at every lock acquisition and inside callbacks", |_| "5 pipelines; worker: 3 executor steps; 1 unsubscribe; <= 3 pre-emptions".to_string(), Box::new(|_| c02_threads_sched()), 3_000_000, 40_000_000);
   add("c09_threads_preempt", vec!["C09", "C10"], "buffer_with_time, buffer_with_count_and_time, sample(interval), throttle(all), debounce on a thread-safe source: the pool worker's timer callbacks race the source thread at every lock acquisition and inside callbacks; monitors + serialisability (no item or final buffer may be lost while a tick is being delivered)", |t| format!("7 rate-limiting pipelines; 2 threads x {} operations from next/complete/error/unsubscribe/clock tick + poll; <= 3 pre-emptions", if t { 3 } else { 2 }), Box::new(|t| c10_preempt(RATE_PIPES, if t { 3 } else { 2 }, 3)), 3_000_000, 40_000_000);
+  add("c07_threads_preempt", vec!["C07", "C10"], "observe_on_threads / delay_threads with the pool worker (FIFO) polling on one logical thread while the source emits on the other: monitors + serialisability (no item or terminal lost, duplicated or reordered by the race)", |t| format!("2 pipelines; 2 threads x {} operations from next/complete/error/unsubscribe/clock tick + poll; <= 3 pre-emptions", if t { 3 } else { 2 }), Box::new(|t| c10_preempt(MOVE_PIPES, if t { 3 } else { 2 }, 3)), 3_000_000, 40_000_000);
   add("c04_threads_preempt", vec!["C04", "C10"], "the two-input _threads combinators with their two inputs driven by two logical threads: monitors + serialisability (a terminal of one input must not be lost or duplicated while the other input is delivering)", |_| "merge, zip, combine_latest, with_latest_from, take_until, skip_until, sample _threads; 2 threads x 2 operations; <= 3 pre-emptions".to_string(), Box::new(|_| c10_preempt(&[Pipe::Merge, Pipe::Zip, Pipe::CombineLatest, Pipe::WithLatestFrom, Pipe::TakeUntil, Pipe::SkipUntil, Pipe::Sample], 2, 3)), 3_000_000, 40_000_000);
   add("c06_threads", vec!["C06"], "SubjectThreads under two logical threads: every subscriber's log stays well-formed and all subscribers agree on the order", |t| format!("2 threads x {} operations", if t { 3 } else { 2 }), Box::new(|t| c10_preempt(&[Pipe::Subject], if t { 3 } else { 2 }, 3)), 3_000_000, 40_000_000);
   add("c12_threads", vec!["C12"], "BehaviorSubject over SubjectThreads: two producers and a late subscriber; peek() = last value in the common delivery order", |_| "2 threads x 2 operations".to_string(), Box::new(|_| c10_preempt(&[Pipe::Behavior], 2, 3)), 3_000_000, 40_000_000);
